@@ -112,6 +112,20 @@ register("C09",
          "TLA+ index-arithmetic model checked by TLC + TLC trace validation of projected implementation outputs",
          "DESIGN.md §4 C09")
 
+register("C01",
+         "Sqra.tla models get_rate_matrix operationally (entry-wise D*S, division by h position by position in stored entry "
+         "order, division by the row's volume, one-sided capped Boltzmann factor, diagonal = minus row sum) on the exact "
+         "energy lattice E = k*2RT ln(base) with rationals, and TLC checks for all symmetric patterns on n<=3 (thorough: 4) "
+         "that it equals the declarative formula, has zero row sums, satisfies detailed balance below the cap, is shift "
+         "invariant and linear in D; five modelled slips are negative configs. The real SQRA class is run on all symmetric "
+         "patterns for n=2..4 and random sparse patterns to n=8, five temperatures incl. the one that puts the 500 kJ/mol cap "
+         "exactly on two levels, bases 2 and 3, csr / row-major coo / mixed storage, and TLC compares every entry exactly "
+         "on the common-denominator lattice; shift invariance and linearity are additionally checked for random real shifts.",
+         "Energies on the rational lattice (non-lattice reals only via the shift / linearity relations); S, h, V small "
+         "positive integers; n <= 8.",
+         "TLA+ operational-vs-declarative model checked by TLC + exact TLC trace validation of implementation outputs",
+         "DESIGN.md §4 C01")
+
 ALL = [f"C{i:02d}" for i in range(1, 21)]
 
 
